@@ -506,6 +506,8 @@ def run(prog, check):
                 want_ = ('fmt', ('str', '%s'), ('cell', body_[2][1], r_[1]))
             if want_ is None or body_[2][2] != want_:
                 bad_rows.append((where_, 'a row is `%s`: not the value of every header column, in header order, at the row index' % _show(body_)[:200]))
+            if not (r_[3][0] == 'range' and r_[3][1] == ('int', 0)):
+                bad_rows.append((where_, 'the rows run over `%s`: the first period is not row 0' % _show(r_[3])[:120]))
         check.ob('C20.R3', '%s::rows-follow-header' % b.key, not bad_rows, bad_rows[0][0] if bad_rows else b.where,
                  'each row holds str(series[i]) for the variables of the header, in header order' if not bad_rows else
                  '; '.join(sorted({x[1] for x in bad_rows}))[:500], 'a block with a t variable that is not the first in the variable list')
